@@ -71,7 +71,10 @@ theorem exBool_max (hk : 0 < k) (s : St (Ext K)) (hb : s.bounds = exBoolBounds k
   rw [linExp, linExtreme.eq_def]
   simp only [ite_ok, fail_ok, bind_ok, get_ok, and_false, false_or]
   refine ⟨by simp, s, s, rfl, ?_⟩
-  rw [hb, exBool_flags hk]
+  have hfl : retainedFlagsE .max [.var "x", .num (.fin k : Ext K)]
+      (boundsOfList (exBoolBounds k) [.var "x", .num (.fin k : Ext K)]) = [false, true] := by
+    simp [retainedFlagsE, exBool_flags hk, mayBeUndefined]
+  rw [hb, hfl]
   refine ⟨by simp, Or.inl ⟨by simp, ?_⟩⟩
   simp [linFirstFlagged, linExp, pure_ok]
 
@@ -414,6 +417,67 @@ theorem exUndefDiv_error :
             simp only [Except.error.injEq] at hp
             rw [hp]
           · rw [exUndefDiv_drain _ rfl] at hp; cases hp
+
+/-- if the objective is lowered and the loop stops with an error, `linearizeWith` reports that error. -/
+theorem linearizeWith_error_of_drain {m : Model (Ext K)} {b : BoundsMap (Ext K)} {d : List (DomVar (Ext K))}
+    {o : Exp (Ext K)} {c : Ctx (Ext K)} {s1 : St (Ext K)} {e : LinErr}
+    (h1 : simplifyFlat m.objective { queue := m.constraints, domain := d, bounds := b } =
+      .ok (o, { queue := m.constraints, domain := d, bounds := b }))
+    (h2 : linExp o (objReq m) { queue := m.constraints, domain := d, bounds := b } = .ok (c, s1))
+    (h3 : drain drainFuel s1 = .error e) : linearizeWith m b d = .error e := by
+  cases h : linearizeWith m b d with
+  | ok lm =>
+    exfalso
+    obtain ⟨o', s1', c', s2', s3', g1, g2, g3, _⟩ := (linearizeWith_ok_iff _ _ _ _).mp h
+    rw [h1] at g1
+    simp only [Except.ok.injEq, Prod.mk.injEq] at g1
+    obtain ⟨rfl, rfl⟩ := g1
+    rw [h2] at g2
+    simp only [Except.ok.injEq, Prod.mk.injEq] at g2
+    obtain ⟨rfl, rfl⟩ := g2
+    rw [h3] at g3; cases g3
+  | error e' =>
+    unfold linearizeWith at h
+    simp only at h
+    split at h
+    · cases h
+    · rename_i e'' hprog
+      simp only [Except.error.injEq] at h
+      subst h
+      simp only [bind_err] at hprog
+      rcases hprog with hp | ⟨a, s1', hp, hprog⟩
+      · rw [h1] at hp; cases hp
+      · rw [h1] at hp
+        simp only [Except.ok.injEq, Prod.mk.injEq] at hp
+        obtain ⟨rfl, rfl⟩ := hp
+        rcases hprog with hp | ⟨a', s2', hp, hprog⟩
+        · have key : (Except.error e'' : Except LinErr (Ctx (Ext K) × St (Ext K))) = Except.ok (c, s1) :=
+            hp.symm.trans h2
+          cases key
+        · have key : (Except.ok (a', s2') : Except LinErr (Ctx (Ext K) × St (Ext K))) = Except.ok (c, s1) :=
+            hp.symm.trans h2
+          simp only [Except.ok.injEq, Prod.mk.injEq] at key
+          obtain ⟨rfl, rfl⟩ := key
+          rcases hprog with hp | ⟨a'', s3', hp, hprog⟩
+          · rw [h3] at hp
+            simp only [Except.error.injEq] at hp
+            rw [hp]
+          · rw [h3] at hp; cases hp
+
+theorem exUndefDivL_linExp (req : Req) (s : St (Ext K)) :
+    linExp (exUndefDivL : Exp (Ext K)) req s = .error .divisionByZero := by
+  rw [exUndefDivL, linExp]
+  have hg : (Arith.eq (Ext.fin (0 : K)) (Arith.zero : Ext K) &&
+      !(Exp.mayBeUndefined (.bin .div (.var "x") (.num (.fin 0)) : Exp (Ext K)))) = false := by
+    simp [mayBeUndefined, isNonzeroLit, Arith.ne, Arith.eq, Ext.eq, Arith.zero]
+  rw [hg]
+  simp only [Bool.false_eq_true, if_false]
+  rw [bind_err]
+  left
+  rw [linExp]
+  have h0 : Arith.eq (Ext.fin (0 : K)) (Arith.zero : Ext K) = true := by simp [Arith.eq, Ext.eq, Arith.zero]
+  rw [if_pos h0]
+  rfl
 
 /-! ### a decidable sufficient condition for definedness on the piecewise-linear fragment -/
 
